@@ -25,10 +25,24 @@ def solve(darsia, img1, img2, method, l1, mob, weight=None, extra=None, status=F
     if status:
         opts["return_status"] = True
     opts.update(extra or {})
+    # the same computation is reachable by several routes (front-end with the method name in any capitalisation, positional or
+    # keyword weight, the solver classes on a grid generated from the image); the routes are taken in turn
+    ROUTE[0] += 1
+    route = ROUTE[0] % 4
     with warnings.catch_warnings():
         warnings.simplefilter("ignore")
         with np.errstate(all="ignore"):
-            return darsia.wasserstein_distance(img1, img2, method=method, weight=weight, options=opts)
+            if route == 0:
+                return darsia.wasserstein_distance(img1, img2, method=method, weight=weight, options=opts)
+            if route == 1:
+                return darsia.wasserstein_distance(img1, img2, method.capitalize(), weight, options=opts)
+            if route == 2:
+                return darsia.wasserstein_distance(mass_1=img1, mass_2=img2, method=method.upper(), weight=weight, options=opts)
+            cls = darsia.WassersteinDistanceNewton if method == "newton" else darsia.WassersteinDistanceBregman
+            return cls(darsia.generate_grid(img1), weight, opts)(img1, img2)
+
+
+ROUTE = [0]
 
 
 def thin_event(darsia, rng, tid, m1, m2, big=False):
@@ -144,8 +158,12 @@ def certified_min(darsia, grid, rhs, l1, wflat, nq, u0):
     return lb, ub
 
 
-def relations_event(darsia, rng, tid):
-    shape = rng.choice([(3, 3), (4, 3), (2, 2, 2), (3, 2), (5,), (4, 1), (2, 3, 1), (3, 4)])
+REL = [-1]
+
+
+def relations_event(darsia, rng, tid, thin=False):
+    # (thin: a path of cells - the flux is unique, so the scaling relations apply whether or not the iteration converged)
+    shape = rng.choice([(5,), (4, 1), (1, 6), (1, 3, 1), (7,)]) if thin else rng.choice([(3, 3), (4, 3), (2, 2, 2), (3, 2), (5,), (4, 1), (2, 3, 1), (3, 4)])
     dim = len(shape)
     hs = [rng.choice([1.0, 0.5, 2.0, 0.25]) for _ in range(dim)]
     n = int(np.prod(shape))
@@ -157,8 +175,10 @@ def relations_event(darsia, rng, tid):
     if a2.sum() == 0:
         a2[-1] = 2.0
     a2 *= a1.sum() / a2.sum()
-    method = rng.choice(["newton", "bregman"])
-    l1 = rng.choice(["cell", "subcell", "rt"])
+    # (every quadrature mode with every method in turn: the weighted / scaled relations go through other code for each)
+    REL[0] += 1
+    l1 = ["cell", "subcell", "rt"][REL[0] % 3]
+    method = ["newton", "bregman"][(REL[0] // 3) % 2]
     mob = rng.choice(MOBS)
     cnum, cden = rng.choice([(2, 1), (4, 1), (1, 2), (3, 2), (5, 1)])
     c = cnum / cden
@@ -203,6 +223,36 @@ def relations_event(darsia, rng, tid):
         br = certified_min(darsia, grid, rhs, l1, np.ones(n), nq, u0)
         if br is not None:
             e["min6"] = d6(br[0])      # certified lower bound of the minimum (within 1e-6 relative of an attained value)
+    except Exception as ex:  # noqa
+        e["raised"] = 1
+        e["error"] = repr(ex)[:200]
+    return e
+
+
+def matrix_event(darsia, rng, tid, which):
+    n = rng.choice([4, 5]) if which == "emd" else 4       # (from four images on the lower triangle is not the mirrored upper one by accident)
+    shape = (3, 4)
+    hs = [0.5, 0.25]
+    imgs = []
+    for _ in range(n):
+        a = np.array([rng.randint(0, 4) for _ in range(12)], dtype=float)
+        a[rng.randrange(12)] += 1.0
+        a *= 12.0 / a.sum()
+        imgs.append(make_images(darsia, shape, hs, a.reshape(shape), a.reshape(shape))[0])
+    e = {"tid": tid, "op": "matrix", "which": which, "n": n, "raised": 0, "d": [], "direct": []}
+    try:
+        with warnings.catch_warnings():
+            warnings.simplefilter("ignore")
+            with np.errstate(all="ignore"):
+                if which == "emd":
+                    w1 = darsia.EMD()
+                else:
+                    opts = {"num_iter": 12, "L": 1e-2 if which == "newton" else 1.0}
+                    w1 = (darsia.WassersteinDistanceNewton if which == "newton" else darsia.WassersteinDistanceBregman)(darsia.generate_grid(imgs[0]), None, opts)
+                M = np.asarray(w1.distance_matrix(list(imgs)), dtype=float)
+                direct = [[0.0 if i == j else float(w1(imgs[min(i, j)], imgs[max(i, j)])) for j in range(n)] for i in range(n)]
+        e["d"] = [[d6(M[i, j]) for j in range(n)] for i in range(n)] if M.shape == (n, n) else [[-1] * n] * n
+        e["direct"] = [[d6(x) for x in row] for row in direct]
     except Exception as ex:  # noqa
         e["raised"] = 1
         e["error"] = repr(ex)[:200]
@@ -307,10 +357,15 @@ def run(ck, replay=None):
         events.append(thin_event(darsia, rng, f"thinlong:{i}", m1, m2))
     for i in range(6 if quick else 100):   # ~5-15 s each (six solver runs of up to 60 iterations)
         events.append(relations_event(darsia, rng, f"rel:{i}"))
+    for i in range(6 if quick else 60):    # every quadrature mode x method on a path of cells
+        events.append(relations_event(darsia, rng, f"relthin:{i}", thin=True))
     for i in range(16 if quick else 150):
         events.append(emd_event(darsia, rng, f"emd:{i}"))
     for i in range(8 if quick else 100):
         events.append(emd_dense_event(darsia, rng, f"emddense:{i}"))
+    # the pairwise table of a list of images (distance_matrix), for the OpenCV back-end and for both variational solvers
+    for i in range(3 if quick else 20):
+        events.append(matrix_event(darsia, rng, f"matrix:{i}", ["emd", "newton", "bregman"][i % 3]))
     bad = ck.validate("Trace_TransportCost", "Trace.cfg", events, chunk=500)
     for b in bad:
         e = b["event"]
@@ -318,6 +373,8 @@ def run(ck, replay=None):
             sig = f"C05:{b['clause']}:thin:{e['mode']}:{e['method']}:{e['mob']}:{e['cls']}"
         elif e["op"] == "relations":
             sig = f"C05:{b['clause']}:{e['method']}:{e['l1']}:{e['mob']}"
+        elif e["op"] == "matrix":
+            sig = f"C05:{b['clause']}:matrix:{e['which']}"
         else:
             sig = f"C05:{b['clause']}:emd"
         ck.violation(sig, f"{e['op']} violates {b['clause']}", {k: v for k, v in e.items() if k != "tid"})
